@@ -41,5 +41,19 @@ SORTS = {
 }
 
 
+def _user_sort_by_id(evs, iface):
+    """A user-defined sort function (documented extension point of the sorting algorithms): by session id, descending."""
+    return sorted(evs, key=lambda x: str(x.session_id), reverse=True)
+
+
+def _user_sort_by_request(evs, iface):
+    """A user-defined sort function: largest request first, ties by station id."""
+    return sorted(evs, key=lambda x: (-x.requested_energy, str(x.station_id)))
+
+
+SORTS["user_id"] = _user_sort_by_id
+SORTS["user_request"] = _user_sort_by_request
+
+
 def in_repo(path: str) -> bool:
     return os.path.realpath(path).startswith(REPO + os.sep)
